@@ -24,7 +24,7 @@ META = {
     "encoded": ["memory._Namespace.is_available", "memory._Namespace.assign", "memory._Namespace.extend",
                 "memory._Namespace.names", "memory.MemoryMap.Name.__new__", "memory.MemoryMap.add_resource",
                 "memory.MemoryMap.add_window", "memory.MemoryMap.all_resources"],
-    "also": "alphabet {'a','b','ab','0',0,300} (300 is not cached by CPython; concrete replays build fresh objects); the same Name object re-used; names handed back from resources(); anonymous windows nested two deep; refused windows must stay usable; anonymous windows also mapped into a second parent with names of its own; named windows nested two deep with equal leaf names; heavy shapes split over processes by the first part",
+    "also": "alphabet {'a','b','ab','0',0,300} (300 is not cached by CPython; concrete replays build fresh objects); the same Name object re-used; names handed back from resources(); anonymous windows nested two deep; refused windows must stay usable; anonymous windows also mapped into a second parent with names of its own; named windows nested two deep with equal leaf names; anonymous windows holding named windows; internal TypeErrors on well-formed names are violations; heavy shapes split over processes by the first part",
     "bounds": "up to 3 names (thorough 4) of length 1-2 (pairs up to length 3) over the alphabet "
               "{'a','b','ab','0',0,1}; added as resources, named windows, or resources inside an anonymous window "
               "(absorbed names); an interleaved add that fails for a non-name reason (out-of-bounds address) followed "
@@ -64,7 +64,8 @@ def configs(tier, seed):
     # "ww": a named window holding two named windows that each hold a resource called ("leaf",)
     shared = [[["a", 1], ["r", 1], ["share", 1]], [["a", 1], ["r", 2], ["share", 1]], [["a", 2], ["r", 1], ["share", 2]],
               [["r", 1], ["a", 1], ["share", 1]], [["a", 1], ["w", 1], ["share", 1]], [["aa", 1], ["r", 1], ["share", 1]]]
-    nested = [[["ww", 1], ["r", 1]], [["ww", 2], ["r", 2]], [["r", 1], ["ww", 1]], [["ww", 1], ["ww", 1]]]
+    nested = [[["aw", 1], ["r", 1]], [["aw", 1], ["r", 2]], [["aw", 2], ["r", 1]], [["r", 1], ["aw", 1, 1]], [["aw", 1], ["w", 1]],
+              [["ww", 1], ["r", 1]], [["ww", 2], ["r", 2]], [["r", 1], ["ww", 1]], [["ww", 1], ["ww", 1]]]
     for s in two + three + shared + nested:
         if sum(x for op in s for x in op[1:] if isinstance(x, int)) >= 5 and len(s) >= 3:
             for k in range(len(ALPHA)):
@@ -191,12 +192,16 @@ def harness_for(cfg):
                     E.observe("ok")
                     E.prove(b_not(conf), "a name conflicting with a visible name was accepted")
                     visible.append(nm)
+                except TypeError:
+                    E.observe("internal-error")
+                    E.prove(False, "a well-formed name makes add_resource fail with an internal TypeError")
+                    return
                 except ValueError:
                     E.observe("refused")
                     E.prove(conf, "a legal name was refused")
                     E.prove(counts() == before, "refusal changed the map")
                 continue
-            sub = MemoryMap(addr_width=3 if kind == "aa" else 2, data_width=8)
+            sub = MemoryMap(addr_width=3 if kind in ("aa", "aw") else 2, data_width=8)
             inner = []
             if kind == "aa":
                 # an anonymous window inside an anonymous window: the deep names are visible at the top as well
@@ -211,6 +216,20 @@ def harness_for(cfg):
                     except ValueError:
                         E.prove(conf_in, "a legal name was refused inside a window")
                 sub.add_window(deep)
+                wname = None
+                new_names = list(inner)
+            elif kind == "aw":
+                # an anonymous window that holds a NAMED window (and a resource): both names become visible in the parent
+                inner_named = MemoryMap(addr_width=1, data_width=8)
+                inner_named.add_resource(Res(), name=("leaf",), size=1)
+                nm_w = name(lens[0])
+                sub.add_window(inner_named, name=nm_w)
+                inner.append(nm_w)
+                if len(lens) > 1:
+                    nm_r = name(lens[1])
+                    E.assume(b_not(_conflict(nm_r, nm_w)))
+                    sub.add_resource(Res(), name=nm_r, size=1)
+                    inner.append(nm_r)
                 wname = None
                 new_names = list(inner)
             elif kind in ("w", "xw"):
@@ -254,6 +273,10 @@ def harness_for(cfg):
                 visible.extend(new_names)
                 if wname is None:
                     anon.append((sub, list(new_names)))
+            except TypeError:
+                E.observe("internal-error")
+                E.prove(False, "a well-formed window name makes add_window fail with an internal TypeError")
+                return
             except ValueError:
                 E.observe("refused")
                 E.prove(conf, "a window with legal names was refused")
